@@ -3,6 +3,7 @@
     (Transfer/World.v), for any number of chains and any channel topology. *)
 From IBC Require Import Lib.Bytes Transfer.DenomLocal Transfer.Bank Transfer.Keeper Transfer.World
   Transfer.WorldFacts Transfer.AuthFacts.
+From IBC Require Denom.Ident Denom.Authz Denom.AuthzFacts.
 Local Open Scope Z_scope.
 
 (** Every decrease of a user account's balance, on any chain, for any denomination, happens in a step that the
@@ -41,6 +42,21 @@ Theorem C49_relayer_irrelevant w :
   (forall n r1 r2 el, step w (OTimeout n r1 el) = step w (OTimeout n r2 el)).
 Proof. exact (relayer_irrelevant w). Qed.
 Print Assumptions C49_relayer_irrelevant.
+
+(** "... or a grantee whose grant accepted the message": what a grant accepts is bounded by the grant — the statement of
+    C36 for the same authorization model (Denom/Authz.v, tied to TransferAuthorization.Accept by the `denom` family):
+    over ANY sequence of requests against ANY validated grant, for every (port, channel, denom) with a bounded limit the
+    accepted amounts sum to at most the granted limit and the remaining limit is exactly what is left. *)
+Theorem C49_grantee_moves_at_most_the_grant (g0 : IBC.Denom.Authz.Grant) (rs : list IBC.Denom.Authz.Req) :
+  IBC.Denom.Authz.grant_validate g0 = true -> Forall (fun r => 0 <= IBC.Denom.Authz.r_amt r) rs ->
+  IBC.Denom.AuthzFacts.SWF (fst (IBC.Denom.Authz.run (Some g0) rs)) /\
+  forall p c d, IBC.Denom.Authz.remaining (Some g0) p c d <> IBC.Denom.Authz.sentinel ->
+    IBC.Denom.Authz.accepted_total (Some g0) rs p c d <= IBC.Denom.Authz.remaining (Some g0) p c d /\
+    IBC.Denom.Authz.remaining (fst (IBC.Denom.Authz.run (Some g0) rs)) p c d =
+      IBC.Denom.Authz.remaining (Some g0) p c d - IBC.Denom.Authz.accepted_total (Some g0) rs p c d /\
+    0 <= IBC.Denom.Authz.remaining (fst (IBC.Denom.Authz.run (Some g0) rs)) p c d.
+Proof. exact (IBC.Denom.AuthzFacts.validated_run g0 rs). Qed.
+Print Assumptions C49_grantee_moves_at_most_the_grant.
 
 (** non-vacuity: a signed transfer debits the sender; the same message signed by someone else is rejected;
     a v2 send with payload sender different from the signer is rejected *)
